@@ -1,4 +1,5 @@
 import CoupeModel.Model.Hilbert
+import CoupeModel.Model.HilbertQuantise
 import CoupeModel.Proofs.Hilbert
 import CoupeModel.Proofs.HilbertCode
 import CoupeModel.Proofs.HilbertInterleave
@@ -234,6 +235,24 @@ theorem enc3U_eq_enc3 (x y z order : Nat) (ho : order ≤ MAX_ORDER_3D)
   replace ho : order ≤ 21 := ho
   have hz21 : z < 2 ^ 21 := Nat.lt_of_lt_of_le hz (Nat.pow_le_pow_right (by decide) ho)
   rw [enc3U, if_pos ⟨by omega, hx, hy, hz⟩, enc3Loop_spec ho, slowN3, enc3, zorder3_digits ho x y z hz21]
+
+/-! ## Quantisation (statement only) -/
+
+/-- What C08 claims about `segment_to_segment(min, max, order)` for a finite interval:
+the factor loop terminates, every value of `[min, max]` is mapped into `[0, 2^order - 1]`,
+and the mapping is monotone.  **Not proved**: `Float` is opaque to the kernel, so this
+clause is covered by the correspondence run (bit-exact comparison of `segFactor`/`segCell`
+with the implementation) and by the oracle only.  The correspondence run found that the
+termination part is FALSE of the code as it stands when `0 < max - min ≤ 2^(order-1024)`
+(`n / width` overflows to `+∞`, `nextafter(+∞, 0) = +∞`: `segFactor` = `none`, the Rust loop
+spins forever) – reported, see `corpus/C08/seg_tiny_width_hang.case`. -/
+def quantise_statement : Prop :=
+  ∀ (min max : Float) (order : Nat), order ≤ MAX_ORDER_2D →
+    min.isFinite = true → max.isFinite = true → min ≤ max →
+    ∃ f, segFactor min max order = some f ∧
+      (∀ v, min ≤ v → v ≤ max → ∃ c, segCell min max f v = some c ∧ c ≤ 2 ^ order - 1) ∧
+      (∀ v v' c c', min ≤ v → v ≤ v' → v' ≤ max →
+        segCell min max f v = some c → segCell min max f v' = some c' → c ≤ c')
 
 /-! ## Non-vacuity -/
 
